@@ -240,6 +240,9 @@ def _ct_inputs(st, interp):
 TT_EL = z3.Function("target_table_element", z3.IntSort(), T.Atom)     # table[Z]
 
 
+TT_BY_SYMBOL = z3.Function("target_table_element_by_symbol", z3.StringSort(), T.Atom)     # getattr(table, symbol)
+
+
 def c_tt_getitem(interp, st, args, kw):
     z = to_z3num(interp.resolve(st, args[1]))
     e = TT_EL(z)
@@ -660,3 +663,66 @@ U_MAKE = [Unit("_make_%s" % k, CORE + "._make_" + k, _mk_inputs(k), _mk_post,
                contracts={CORE + "._get_table": c_get_table_rec, "TableStub2.__getitem__": c_tablestub_getitem,
                           "ElStub2.__getitem__": c_elstub_getitem2, "IonSetStub.__getitem__": c_ionstub2_getitem},
                replay={"module": "c08", "task": "replay"}) for k in ("element", "isotope", "ion", "isotope_ion")]
+
+
+# ------------------------------------------------------------------------------ PeriodicTable.__getitem__ / __iter__, Element.__iter__
+
+def _tgi_inputs(known):
+    def mk(st, interp):
+        use_state(st)
+        zs = [st.fresh("Z%d" % i, z3.IntSort()) for i in range(3)]
+        st.assume(z3.Distinct(*zs))
+        els = [VObj((CORE, "Element"), {"number": z}) for z in zs]
+        self = VObj((CORE, "PeriodicTable"), {"_element": VDict([[z, e] for z, e in zip(zs, els)])})
+        q = st.fresh("Z", z3.IntSort())
+        st.assume(z3.Or([q == z for z in zs]) if known else z3.And([q != z for z in zs]))
+        return [self, q], {}, {"zs": zs, "els": els, "q": q, "known": known}
+    return mk
+
+
+def _tgi_post(st, interp, C, res):
+    if not C["known"]:
+        st.oblige("post.an atomic number that is not in the table raises KeyError (never a neighbour)",
+                  z3.BoolVal(res.outcome == "raise" and res.exc == "KeyError"), kind="raises", info={"outcome": res.outcome})
+        return
+    if res.outcome == "raise":
+        st.oblige("never-raises for a number of the table", False, kind="raises", info={"exc": res.exc})
+        return
+    st.oblige("post.returns the element registered under exactly that number",
+              z3.And([z3.Implies(C["q"] == z, z3.BoolVal(res.value is e)) for z, e in zip(C["zs"], C["els"])]))
+
+
+U_TABLE_GETITEM = [Unit("PeriodicTable.__getitem__[%s]" % ("known Z" if k else "unknown Z"), CORE + ".PeriodicTable.__getitem__",
+                        _tgi_inputs(k), _tgi_post, replay={"module": "c08", "task": "replay"}) for k in (True, False)]
+
+
+def _iter_inputs(cls, field):
+    def mk(st, interp):
+        use_state(st)
+        ks = [st.fresh("key%d" % i, z3.IntSort()) for i in range(3)]
+        st.assume(z3.Distinct(*ks))
+        items = [VObj("Member", {"key": k}) for k in ks]
+        self = VObj((CORE, cls), {field: VDict([[k, it] for k, it in zip(ks, items)])})
+        return [self], {}, {"ks": ks, "items": items}
+    return mk
+
+
+def _iter_post(st, interp, C, res):
+    if res.outcome == "raise":
+        st.oblige("never-raises", False, kind="raises", info={"exc": res.exc})
+        return
+    v = res.value
+    out = list(v.items) if isinstance(v, (VList, VTuple)) else None
+    ok = out is not None and len(out) == len(C["items"]) and all(isinstance(x, VObj) and x.cls == "Member" for x in out)
+    st.oblige("post.yields as many members as the table holds", z3.BoolVal(ok))
+    if not ok:
+        return
+    st.oblige("post.each member exactly once", z3.BoolVal(all(any(x is it for x in out) for it in C["items"])))
+    keys = [x.attrs["key"] for x in out]
+    st.oblige("post.in increasing order of atomic number / mass number", z3.And([keys[i] < keys[i + 1] for i in range(len(keys) - 1)]))
+
+
+U_TABLE_ITER = Unit("PeriodicTable.__iter__", CORE + ".PeriodicTable.__iter__", _iter_inputs("PeriodicTable", "_element"), _iter_post,
+                    replay={"module": "c08", "task": "replay"})
+U_ELEMENT_ITER = Unit("Element.__iter__", CORE + ".Element.__iter__", _iter_inputs("Element", "_isotopes"), _iter_post,
+                      replay={"module": "c08", "task": "replay"})
